@@ -106,13 +106,16 @@ func cases(r *mc.Run) []Case {
 	}
 	// overwrites: old content of each storage shape replaced by every size
 	bases := []int{100, 600, mib + 1} // inline (at limit 512) | one chunk | two chunks
-	if !r.Quick() {
+	osizes := sizes                   // sizes used on top of an existing file
+	if r.Quick() {
+		osizes = []int{0, 1, 512, 513, mib, mib + 1, 2*mib + 1}
+	} else {
 		bases = append(bases, 2*mib+1)
 	}
 	for _, lim := range limits {
 		for _, m := range meths {
 			for _, b := range bases {
-				for _, s := range sizes {
+				for _, s := range osizes {
 					out = append(out, Case{Limit: lim, Method: m, Op: "overwrite", Base: b, BaseMeth: "PUT", Mid: -1, Size: s, Fail: -1, Ext: ".bin"})
 				}
 			}
@@ -126,7 +129,7 @@ func cases(r *mc.Run) []Case {
 					continue
 				}
 				for _, b := range append([]int{0}, bases...) {
-					for _, s := range sizes {
+					for _, s := range osizes {
 						out = append(out, Case{Limit: lim, Method: m, Op: "append", Base: b, BaseMeth: bm, Mid: -1, Size: s, Fail: -1, Ext: ".bin"})
 					}
 				}
@@ -136,8 +139,12 @@ func cases(r *mc.Run) []Case {
 				out = append(out, Case{Limit: lim, Method: m, Op: "append", Base: -1, Mid: -1, Size: s, Fail: -1, Ext: ".bin"})
 			}
 			// two appends in a row
+			mids := []int{1, 513, mib, mib + 1}
+			if r.Quick() {
+				mids = []int{513, mib + 1}
+			}
 			for _, b := range []int{600, mib + 1} {
-				for _, mid := range []int{1, 513, mib, mib + 1} {
+				for _, mid := range mids {
 					for _, s := range []int{1, 512, mib + 1} {
 						out = append(out, Case{Limit: lim, Method: m, Op: "append2", Base: b, BaseMeth: "PUT", Mid: mid, Size: s, Fail: -1, Ext: ".bin"})
 					}
@@ -149,7 +156,11 @@ func cases(r *mc.Run) []Case {
 	for _, lim := range limits {
 		for _, m := range meths {
 			for _, op := range []string{"create", "overwrite", "append"} {
-				for _, s := range []int{300, 513, mib + 1, 2*mib + 1} {
+				fsizes := []int{300, 513, mib + 1, 2*mib + 1}
+				if r.Quick() {
+					fsizes = []int{300, mib + 1, 2*mib + 1}
+				}
+				for _, s := range fsizes {
 					for _, f := range failOffsets(s) {
 						base := -1
 						if op != "create" {
